@@ -238,6 +238,8 @@ def run_one(item, extra):
             return run_hand(prop, item[1])
         if kind == "plain-input":
             return run_plain_input(prop, item[1])
+        if kind == "nested-batches":
+            return run_nested_batches(prop, item[1])
         if kind == "caught":
             return run_caught(prop, item[1])
         if kind == "near-deadline":
@@ -448,6 +450,38 @@ def run_plain_input(prop, i):
     return check(prop, scn, seed, extra_probes={"non-object-input": 1}, judge_all=True)
 
 
+def run_nested_batches(prop, i):
+    """Several instances of ONE Map state with MaxConcurrency batches in progress at once: it sits in the iterations of an
+    (unbatched) outer Map or in the branches' shared... each instance has its own items, batches and join."""
+    seed = common.run_seed(8700000 + i)
+    rng = random.Random(seed)
+    fn_arn = E.GM.FN_ARN
+    g = rng.randint(2, 3)
+    groups = []
+    dm = {}
+    n = 0
+    for k in range(g):
+        items = []
+        for _ in range(rng.randint(2, 4)):
+            n += 1
+            items.append(n * 10 + k)
+            dm[json.dumps(n * 10 + k)] = rng.choice([0.0, 0.5, 1.0, 1.5, 2.0])
+        groups.append({"items": items})
+    inner = {"Type": "Map", "ItemsPath": "$.items", "MaxConcurrency": rng.choice([1, 1, 2]), "End": True,
+             rng.choice(["ItemProcessor", "Iterator"]): {"StartAt": "T", "States": {
+                 "T": {"Type": "Task", "Resource": fn_arn + "w", "End": True}}}}
+    outer = {"Type": "Map", "ItemsPath": "$.groups", "ResultPath": "$.r", "Next": "A",
+             "ItemProcessor": {"StartAt": "I", "States": {"I": inner}}}
+    d = {"StartAt": "O", "States": {"O": outer, "A": {"Type": "Task", "Resource": fn_arn + "after", "End": True}}}
+    cfg = E.policy_cfg(rng.choice(ALL_POLICIES))
+    cfg["execution_ttl"] = 600
+    scn = {"machines": {"m0": {"definition": d, "type": rng.choice(["STANDARD", "EXPRESS"]), "family": "nested-batches"}},
+           "executions": [{"machine": "m0", "input": {"groups": groups}, "name": "e0"}],
+           "script": {"w": [{"ok": {"op": "wrap"}, "delay_map": dm}], "after": [{"ok": {"op": "echo"}}]},
+           "functions": ["after", "w"], "config": cfg}
+    return check(prop, scn, seed, extra_probes={"batched-map-instances-side-by-side": 1}, judge_all=True)
+
+
 def run_loop(prop, i):
     seed, scn = loop_scenario(i)
     return check(prop, scn, seed, extra_probes={"fan-out-re-entered-in-a-loop": 1}, judge_all=True)
@@ -499,7 +533,8 @@ def main_for(prop, argv, extra_items=()):
     if prop == "C05":
         pi = perm_items(4)
         items = pi + [("loop", j) for j in range(200 if tier == "quick" else 8000)] + \
-            [("caught", j) for j in range(250 if tier == "quick" else 10000)] + items
+            [("caught", j) for j in range(250 if tier == "quick" else 10000)] + \
+            [("nested-batches", j) for j in range(200 if tier == "quick" else 8000)] + items
         extra_cov["permutation_slice"] = {"exhaustive": True, "cases": len(pi),
                                           "what": "every completion order of k<=4 branches/items x Parallel and Map "
                                                   "with every MaxConcurrency 0..k+1"}
